@@ -11,22 +11,22 @@ import (
 
 // A Scenario is one generated case (DESIGN Appendix C). Plain JSON-serialisable.
 type Scenario struct {
-	Transport  string        // memTCP | memTLS | memPacket | realUDP | realTCP
-	Clients    []Client      // client j (1-based) = connection j for stream transports
-	Trigger    string        // event (pattern) at which the controller calls Shutdown
-	FallbackMs int           // Shutdown is called anyway after this long without the trigger ("trigger-fallback")
-	Ctx        string        // background | expired | expireAt
-	CtxAt      string        // expireAt: the event at which the context is cancelled
-	CtxAPI     bool          // background: call ShutdownContext(context.Background()) instead of Shutdown()
-	HoldMs     int           // how long after shutdown.call the controller logs "release" (frees held handlers)
-	Misuse     []Misuse      // start/stop misuse operations
-	MaxTCP     int           // Server.MaxTCPQueries: -1 (unlimited), 0 (default 128), 1, 2, 128
+	Transport  string   // memTCP | memTLS | memPacket | realUDP | realTCP
+	Clients    []Client // client j (1-based) = connection j for stream transports
+	Trigger    string   // event (pattern) at which the controller calls Shutdown
+	FallbackMs int      // Shutdown is called anyway after this long without the trigger ("trigger-fallback")
+	Ctx        string   // background | expired | expireAt
+	CtxAt      string   // expireAt: the event at which the context is cancelled
+	CtxAPI     bool     // background: call ShutdownContext(context.Background()) instead of Shutdown()
+	HoldMs     int      // how long after shutdown.call the controller logs "release" (frees held handlers)
+	Misuse     []Misuse // start/stop misuse operations
+	MaxTCP     int      // Server.MaxTCPQueries: -1 (unlimited), 0 (default 128), 1, 2, 128
 	// transient faults of the accept / datagram-read step (in-memory transports and the wrapped
 	// loopback listener): errors that are Temporary() - with or without Timeout() - must be
 	// retried by the serve loop, the service goes on as if nothing had happened
-	TempErrs  []string // kinds (tempNotTimeout | tempTimeout) queued before the server starts
-	TempErrAt string   // one more tempNotTimeout error is injected when this event is logged ("" = none)
-	Waits      []memnet.Wait // interposition plan
+	TempErrs  []string      // kinds (tempNotTimeout | tempTimeout) queued before the server starts
+	TempErrAt string        // one more tempNotTimeout error is injected when this event is logged ("" = none)
+	Waits     []memnet.Wait // interposition plan
 }
 
 type Client struct {
